@@ -84,7 +84,7 @@ def run_job(job: dict) -> dict:
     fakes.quiet_logging()
     losses = job.get("losses") or []
     kw = dict(n_days=job.get("n_days", n_days_for(losses)), seed=job.get("seed", 0),
-              start=job.get("start", "named"), stop_when_complete=job.get("stop", True))
+              start=job.get("start", "named"), stop_when_complete=job.get("stop", True), scan=job.get("scan", False))
     if job.get("race"):
         # replay of the model's trip: deliver the class reply while the zone's poller is suspended
         # inside the send of `hdr` in round `rnd`; the phase is read off a probe run (same seed)
@@ -420,6 +420,8 @@ def main(tier: str, replay: str | None) -> None:
     small = enum_configs("MC_Discovery_enumA.cfg") + enum_configs("MC_Discovery_enumB.cfg")
     for i, c in enumerate(small):  # every small configuration, loss-free, both ways of meeting the CTL
         jobs.append({"cfg": c, "losses": [], "start": ("named", "heard", "early")[i % 3], "kind": "small"})
+        if i % 4 == 1:    # ... and with another gateway walking the controller's zone table meanwhile (its exchanges are overheard)
+            jobs.append({"cfg": c, "losses": [], "start": ("named", "heard")[i % 2], "kind": "small+scan", "scan": True, "stop": False})
     sims = simulate_behaviours(600 if thorough else 24, chk.seed)
     seen = set()
     for m_cfg, lost in sims:
@@ -436,6 +438,8 @@ def main(tier: str, replay: str | None) -> None:
         ls = gen_losses(rng, c, 1) if i % 2 else []
         jobs.append({"cfg": c, "losses": ls, "kind": "generated", "seed": rng.randint(0, 9),
                      "start": rng.choice(["named", "heard", "early"])})
+        if i % 3 == 0:
+            jobs.append(dict(jobs[-1], kind="generated+scan", scan=True, stop=False))
     if thorough:  # long horizons: stability after completion, losses in later rounds
         for i in range(16):
             c = gen_cfg(rng, rng.randint(1, 5), 3)
